@@ -1,39 +1,431 @@
 ------------------------------- MODULE BigRat -------------------------------
-(* Exact rational arithmetic for TLC.  PLACEHOLDER bodies: the plain TLA+       *)
-(* definitions are being written; TLC executes the Java override BigRat.class.  *)
-EXTENDS Integers, Sequences
-RFromInt(i) == <<i>>
-RPow2(k) == <<k>>
-RFromDouble(q) == q
-RVecFromDoubles(v) == v
-RMatFromDoubles(v) == v
-RAdd(a, b) == a
-RSub(a, b) == a
-RMul(a, b) == a
-RDiv(a, b) == a
-RNeg(a) == a
-RAbs(a) == a
-RLeq(a, b) == TRUE
-RLt(a, b) == TRUE
-REq(a, b) == TRUE
-RSign(a) == 0
-RFloor(a) == a
-RRound(a, bits) == a
-RMax(a, b) == a
-RMin(a, b) == a
-RFloorInt(a) == 0
-RLog2Floor(a) == 0
+(***************************************************************************)
+(* Exact rational arithmetic for TLC.                                      *)
+(*                                                                         *)
+(* A rational is the tuple <<s, N, D>>: s \in {-1,0,1}; N and D are        *)
+(* little-endian tuples of base-2^15 limbs (integers 0..32767); N = <<>>   *)
+(* iff s = 0; D is non-empty (value >= 1); the top limb is never 0.        *)
+(* Every result produced here is in lowest terms (gcd(N,D) = 1, zero is    *)
+(* <<0, <<>>, <<1>>>>), i.e. the same tuple the Java override BigRat.class *)
+(* returns.  Arguments need not be in lowest terms.                        *)
+(*                                                                         *)
+(* These are the plain TLA+ definitions (the meaning).  When BigRat.class  *)
+(* sits next to this file TLC replaces every R* operator by the Java       *)
+(* method of the same name; the BR_* helpers have no override.             *)
+(* All integer intermediates stay below 2^31 (TLC integers are 32-bit).    *)
+(***************************************************************************)
+EXTENDS Integers, Sequences, TLC
+
+BR_B == 32768                        \* limb base 2^15
+\* BR_P2[j+1] = 2^j for j \in 0..14
+BR_P2 == <<1, 2, 4, 8, 16, 32, 64, 128, 256, 512, 1024, 2048, 4096, 8192, 16384>>
+
+\* Turn a (lazily evaluated) function with domain 1..n into an evaluated tuple.
+BR_Force(f) == f \o <<>>
+
+BR_Zeros(k) == IF k <= 0 THEN <<>> ELSE BR_Force([i \in 1..k |-> 0])
+
+(***************************************************************************)
+(* Naturals: little-endian limb tuples, <<>> = 0, top limb # 0.            *)
+(* Loops are written so that the evaluation depth stays logarithmic in the *)
+(* number of limbs (TLC does not eliminate tail calls).                    *)
+(***************************************************************************)
+BR_Limb(x, i) == IF i <= Len(x) THEN x[i] ELSE 0
+
+\* highest index i in lo..hi with x[i] # v, 0 if none
+RECURSIVE BR_TopNe(_, _, _, _)
+BR_TopNe(x, v, lo, hi) ==
+  IF lo > hi THEN 0
+  ELSE IF x[hi] # v THEN hi
+  ELSE IF lo = hi THEN 0
+  ELSE LET mid == (lo + hi) \div 2
+           t   == BR_TopNe(x, v, mid + 1, hi - 1)
+       IN  IF t # 0 THEN t ELSE BR_TopNe(x, v, lo, mid)
+\* lowest index in lo..hi holding a non-zero limb, 0 if none
+RECURSIVE BR_LowNZ(_, _, _)
+BR_LowNZ(x, lo, hi) ==
+  IF lo > hi THEN 0
+  ELSE IF x[lo] # 0 THEN lo
+  ELSE IF lo = hi THEN 0
+  ELSE LET mid == (lo + hi) \div 2
+           t   == BR_LowNZ(x, lo + 1, mid)
+       IN  IF t # 0 THEN t ELSE BR_LowNZ(x, mid + 1, hi)
+
+BR_NStrip(x) ==
+  LET n == Len(x)
+  IN  IF n = 0 THEN <<>>
+      ELSE IF x[n] # 0 THEN x
+      ELSE LET t == BR_TopNe(x, 0, 1, n - 1) IN IF t = 0 THEN <<>> ELSE SubSeq(x, 1, t)
+
+RECURSIVE BR_NFromInt(_)             \* i >= 0
+BR_NFromInt(i) == IF i = 0 THEN <<>> ELSE <<i % BR_B>> \o BR_NFromInt(i \div BR_B)
+
+RECURSIVE BR_NToInt(_)               \* value must fit a TLC integer
+BR_NToInt(x) == IF x = <<>> THEN 0 ELSE x[1] + BR_B * BR_NToInt(Tail(x))
+
+\* carry out of limb position i, given the limb-wise sums s (each <= 2^16 - 2):
+\* decided by the nearest position at or below i whose sum is not 2^15 - 1
+BR_Carry(s, i) ==
+  LET j == BR_TopNe(s, BR_B - 1, 1, i)
+  IN  IF j = 0 THEN 0 ELSE IF s[j] >= BR_B THEN 1 ELSE 0
+BR_NAdd(x, y) ==
+  IF x = <<>> THEN y
+  ELSE IF y = <<>> THEN x
+  ELSE LET n == IF Len(x) >= Len(y) THEN Len(x) ELSE Len(y)
+           s == BR_Force([i \in 1..n |-> BR_Limb(x, i) + BR_Limb(y, i)])
+           r == BR_Force([i \in 1..n |-> (s[i] + BR_Carry(s, i - 1)) % BR_B])
+       IN  IF BR_Carry(s, n) = 0 THEN r ELSE Append(r, 1)
+
+\* borrow out of limb position i, given the limb-wise differences d:
+\* decided by the nearest position at or below i whose difference is not 0
+BR_Borrow(d, i) ==
+  LET j == BR_TopNe(d, 0, 1, i)
+  IN  IF j = 0 THEN 0 ELSE IF d[j] < 0 THEN 1 ELSE 0
+BR_NSub(x, y) ==                      \* requires x >= y
+  IF y = <<>> THEN x
+  ELSE LET n == Len(x)
+           d == BR_Force([i \in 1..n |-> x[i] - BR_Limb(y, i)])
+       IN  BR_NStrip(BR_Force([i \in 1..n |-> (d[i] - BR_Borrow(d, i - 1) + BR_B) % BR_B]))
+
+\* compare limbs lo..hi, most significant first
+RECURSIVE BR_NCmpR(_, _, _, _)
+BR_NCmpR(x, y, lo, hi) ==
+  IF lo > hi THEN 0
+  ELSE IF x[hi] < y[hi] THEN -1
+  ELSE IF x[hi] > y[hi] THEN 1
+  ELSE IF lo = hi THEN 0
+  ELSE LET mid == (lo + hi) \div 2
+           c   == BR_NCmpR(x, y, mid + 1, hi - 1)
+       IN  IF c # 0 THEN c ELSE BR_NCmpR(x, y, lo, mid)
+BR_NCmp(x, y) ==                      \* -1, 0, 1
+  IF Len(x) < Len(y) THEN -1
+  ELSE IF Len(x) > Len(y) THEN 1
+  ELSE BR_NCmpR(x, y, 1, Len(x))
+
+\* x * d for a single limb d: every product x[i]*d < 2^30 is split into two limbs
+BR_NMulSmall(x, d) ==
+  IF d = 0 \/ x = <<>> THEN <<>>
+  ELSE IF d = 1 THEN x
+  ELSE LET n  == Len(x)
+           p  == BR_Force([i \in 1..n |-> x[i] * d])
+           lo == BR_Force([i \in 1..n |-> p[i] % BR_B])
+           hi == BR_Force([i \in 1..(n + 1) |-> IF i = 1 THEN 0 ELSE p[i - 1] \div BR_B])
+       IN  BR_NStrip(BR_NAdd(lo, hi))
+
+\* acc + row * B^off   (row # 0)
+BR_NAddAt(acc, row, off) ==
+  IF Len(acc) <= off THEN acc \o BR_Zeros(off - Len(acc)) \o row
+  ELSE SubSeq(acc, 1, off) \o BR_NAdd(SubSeq(acc, off + 1, Len(acc)), row)
+
+\* x * y[lo..hi] where x # 0 (schoolbook, by halving the multiplier)
+RECURSIVE BR_NMulR(_, _, _, _)
+BR_NMulR(x, y, lo, hi) ==
+  IF lo = hi THEN BR_NMulSmall(x, y[lo])
+  ELSE LET mid == (lo + hi) \div 2
+           l   == BR_NMulR(x, y, lo, mid)
+           h   == BR_NMulR(x, y, mid + 1, hi)
+       IN  IF h = <<>> THEN l ELSE BR_NAddAt(l, h, mid + 1 - lo)
+BR_NMul(x, y) ==
+  IF x = <<>> \/ y = <<>> THEN <<>>
+  ELSE IF y = <<1>> THEN x
+  ELSE IF x = <<1>> THEN y
+  ELSE IF Len(x) >= Len(y) THEN BR_NMulR(x, y, 1, Len(y))
+  ELSE BR_NMulR(y, x, 1, Len(x))
+
+BR_NPow2(k) == BR_Zeros(k \div 15) \o <<BR_P2[(k % 15) + 1]>>          \* k >= 0
+BR_NShl(x, k) ==                                                       \* x * 2^k, k >= 0
+  IF x = <<>> THEN <<>>
+  ELSE BR_Zeros(k \div 15) \o BR_NMulSmall(x, BR_P2[(k % 15) + 1])
+BR_NShr(x, k) ==                                                       \* x \div 2^k, k >= 0
+  LET ls == k \div 15
+      r  == k % 15
+      n  == Len(x) - ls
+  IN  IF n <= 0 THEN <<>>
+      ELSE IF r = 0 THEN SubSeq(x, ls + 1, Len(x))
+      ELSE LET p  == BR_P2[r + 1]
+               pc == BR_P2[16 - r]
+           IN  BR_NStrip(BR_Force([i \in 1..n |->
+                   (x[ls + i] \div p) + (BR_Limb(x, ls + i + 1) % p) * pc]))
+
+RECURSIVE BR_BitLen15(_)
+BR_BitLen15(v) == IF v = 0 THEN 0 ELSE 1 + BR_BitLen15(v \div 2)
+BR_NBitLen(x) == IF x = <<>> THEN 0 ELSE 15 * (Len(x) - 1) + BR_BitLen15(x[Len(x)])
+
+RECURSIVE BR_Tz15(_)                  \* v > 0
+BR_Tz15(v) == IF v % 2 = 1 THEN 0 ELSE 1 + BR_Tz15(v \div 2)
+BR_NTz(x) ==                          \* number of trailing zero bits, x # 0
+  LET i == BR_LowNZ(x, 1, Len(x)) IN 15 * (i - 1) + BR_Tz15(x[i])
+BR_NIsPow2(x) == BR_NTz(x) = BR_NBitLen(x) - 1
+
+\* Largest q in lo..hi with q*y <= rem (known to exist).
+RECURSIVE BR_DigitSearch(_, _, _, _)
+BR_DigitSearch(rem, y, lo, hi) ==
+  IF lo >= hi THEN lo
+  ELSE LET mid == (lo + hi + 1) \div 2
+       IN  IF BR_NCmp(BR_NMulSmall(y, mid), rem) <= 0
+           THEN BR_DigitSearch(rem, y, mid, hi)
+           ELSE BR_DigitSearch(rem, y, lo, mid - 1)
+\* Quotient digit of rem \div y where rem < y * 2^15: bracket it by the two leading
+\* limbs of rem against the leading limb of y (>= 2^14, so the bracket is narrow), search.
+BR_Digit(rem, y) ==
+  LET n  == Len(y)
+      rt == BR_Limb(rem, n + 1) * BR_B + BR_Limb(rem, n)
+      yt == y[n]
+      h0 == rt \div yt
+      hi == IF h0 > BR_B - 1 THEN BR_B - 1 ELSE h0
+      lo == rt \div (yt + 1)
+  IN  IF n = 1 THEN h0 ELSE BR_DigitSearch(rem, y, lo, hi)
+
+\* One step of long division; state st = <<limbs of x still to bring down, remainder, quotient>>.
+BR_DivStep(x, y, st) ==
+  LET i  == st[1]
+      r1 == BR_NStrip(<<x[i]>> \o st[2])
+      d  == BR_Digit(r1, y)
+      r2 == IF d = 0 THEN r1 ELSE BR_NSub(r1, BR_NMulSmall(y, d))
+  IN  <<i - 1, r2, <<d>> \o st[3]>>
+\* up to 2^k steps
+RECURSIVE BR_DivIter(_, _, _, _)
+BR_DivIter(x, y, k, st) ==
+  IF st[1] = 0 THEN st
+  ELSE IF k = 0 THEN BR_DivStep(x, y, st)
+  ELSE BR_DivIter(x, y, k - 1, BR_DivIter(x, y, k - 1, st))
+
+\* <<x \div y, x % y>> for y # 0.  Long division by limbs; both operands are first
+\* shifted left so that the top limb of the divisor is >= 2^14.
+BR_NDivMod(x, y) ==
+  IF BR_NCmp(x, y) < 0 THEN <<<<>>, x>>
+  ELSE
+    LET n  == Len(y)
+        sh == 15 - BR_BitLen15(y[n])
+        xs == BR_NShl(x, sh)
+        ys == BR_NShl(y, sh)            \* still n limbs
+        m  == Len(xs)
+        st == BR_DivIter(xs, ys, BR_BitLen15(m), <<m - n + 1, SubSeq(xs, m - n + 2, m), <<>> >>)
+    IN  <<BR_NStrip(st[3]), BR_NShr(st[2], sh)>>
+
+\* Euclid; the driver doubles the step budget so that the nesting depth stays small.
+BR_GcdStep(p) == <<p[2], BR_NDivMod(p[1], p[2])[2]>>
+RECURSIVE BR_GcdIter(_, _)
+BR_GcdIter(k, p) ==
+  IF p[2] = <<>> THEN p
+  ELSE IF k = 0 THEN BR_GcdStep(p)
+  ELSE BR_GcdIter(k - 1, BR_GcdIter(k - 1, p))
+RECURSIVE BR_GcdRun(_, _)
+BR_GcdRun(k, p) == IF p[2] = <<>> THEN p[1] ELSE BR_GcdRun(k + 1, BR_GcdIter(k, p))
+BR_NGcd(x, y) == BR_GcdRun(2, <<x, y>>)
+
+(***************************************************************************)
+(* Rationals.                                                              *)
+(***************************************************************************)
+BR_Zero == <<0, <<>>, <<1>> >>
+BR_Half == <<1, <<1>>, <<2>> >>
+
+\* Tolerant accessors (sign, numerator, denominator of an argument).
+BR_N(a) == IF a[1] = 0 THEN <<>> ELSE BR_NStrip(a[2])
+BR_S(a) == IF BR_N(a) = <<>> THEN 0 ELSE IF a[1] < 0 THEN -1 ELSE 1
+BR_D(a) == BR_NStrip(a[3])
+
+\* The rational s*n/d in lowest terms (n, d naturals; s \in {-1,1} unless n = 0).
+BR_Mk(s, n, d) ==
+  IF d = <<>> THEN Assert(FALSE, "BigRat: division by zero")
+  ELSE IF n = <<>> THEN BR_Zero
+  ELSE IF d = <<1>> \/ n = <<1>> THEN <<s, n, d>>
+  ELSE
+    LET tn == BR_NTz(n)
+        td == BR_NTz(d)
+        k  == IF tn < td THEN tn ELSE td
+        n1 == IF k = 0 THEN n ELSE BR_NShr(n, k)
+        d1 == IF k = 0 THEN d ELSE BR_NShr(d, k)
+    IN  \* now one of n1, d1 is odd; a power of two is then coprime to the other
+        IF d1 = <<1>> \/ n1 = <<1>> \/ BR_NIsPow2(d1) \/ BR_NIsPow2(n1) THEN <<s, n1, d1>>
+        ELSE LET g == BR_NGcd(n1, d1)
+             IN  IF g = <<1>> THEN <<s, n1, d1>>
+                 ELSE <<s, BR_NDivMod(n1, g)[1], BR_NDivMod(d1, g)[1]>>
+
+BR_Norm(a) == BR_Mk(BR_S(a), BR_N(a), BR_D(a))
+
+\* signed sum of two signed naturals: <<sign, magnitude>>
+BR_SAdd(sa, x, sb, y) ==
+  IF sa = 0 THEN <<sb, y>>
+  ELSE IF sb = 0 THEN <<sa, x>>
+  ELSE IF sa = sb THEN <<sa, BR_NAdd(x, y)>>
+  ELSE LET c == BR_NCmp(x, y)
+       IN  IF c = 0 THEN <<0, <<>> >>
+           ELSE IF c > 0 THEN <<sa, BR_NSub(x, y)>>
+           ELSE <<sb, BR_NSub(y, x)>>
+
+BR_AddG(sa, na, da, sb, nb, db) ==
+  IF da = db THEN
+    LET r == BR_SAdd(sa, na, sb, nb) IN BR_Mk(r[1], r[2], da)
+  ELSE
+    LET r == BR_SAdd(sa, BR_NMul(na, db), sb, BR_NMul(nb, da))
+    IN  BR_Mk(r[1], r[2], BR_NMul(da, db))
+
+BR_Cmp(a, b) ==                       \* -1, 0, 1
+  LET sa == BR_S(a)
+      sb == BR_S(b)
+  IN  IF sa # sb THEN (IF sa < sb THEN -1 ELSE 1)
+      ELSE IF sa = 0 THEN 0
+      ELSE sa * (IF BR_D(a) = BR_D(b) THEN BR_NCmp(BR_N(a), BR_N(b))
+                 ELSE BR_NCmp(BR_NMul(BR_N(a), BR_D(b)), BR_NMul(BR_N(b), BR_D(a))))
+
+\* floor(a) as <<sign, magnitude>>
+BR_FloorSN(a) ==
+  LET s == BR_S(a)
+  IN  IF s = 0 THEN <<0, <<>> >>
+      ELSE IF BR_D(a) = <<1>> THEN <<s, BR_N(a)>>
+      ELSE LET qr == BR_NDivMod(BR_N(a), BR_D(a))
+           IN  IF s > 0 THEN (IF qr[1] = <<>> THEN <<0, <<>> >> ELSE <<1, qr[1]>>)
+               ELSE <<-1, IF qr[2] = <<>> THEN qr[1] ELSE BR_NAdd(qr[1], <<1>>)>>
+
+RFromInt(i) ==
+  IF i = 0 THEN BR_Zero
+  ELSE IF i > 0 THEN <<1, BR_NFromInt(i), <<1>> >>
+  ELSE <<-1, BR_NFromInt(-i), <<1>> >>
+
+RPow2(k) ==
+  IF k >= 0 THEN <<1, BR_NPow2(k), <<1>> >> ELSE <<1, <<1>>, BR_NPow2(-k)>>
+
+\* q = <<s, hi, lo, e>> denotes s*(hi*2^27 + lo)*2^e, 0 <= hi < 2^26, 0 <= lo < 2^27.
+\* hi*2^27 + lo = lo%2^15 + 2^15*(lo\div 2^15 + (hi%8)*2^12) + 2^30*(hi\div 8)
+RFromDouble(q) ==
+  LET hi == q[2]
+      lo == q[3]
+      e  == q[4]
+      h8 == hi \div 8
+      m  == BR_NStrip(<<lo % BR_B, (lo \div BR_B) + (hi % 8) * 4096, h8 % BR_B, h8 \div BR_B>>)
+      s  == IF q[1] < 0 THEN -1 ELSE 1
+  IN  IF e > 100000 THEN Assert(FALSE, "BigRat: RFromDouble of a non-finite value")
+      ELSE IF m = <<>> THEN BR_Zero
+      ELSE IF e >= 0 THEN <<s, BR_NShl(m, e), <<1>> >>
+      ELSE BR_Mk(s, m, BR_NPow2(-e))
+
+RVecFromDoubles(v) ==
+  IF Len(v) = 0 THEN <<>> ELSE BR_Force([i \in 1..Len(v) |-> RFromDouble(v[i])])
+RMatFromDoubles(m) ==
+  IF Len(m) = 0 THEN <<>> ELSE BR_Force([i \in 1..Len(m) |-> RVecFromDoubles(m[i])])
+
+RAdd(a, b) == BR_AddG(BR_S(a), BR_N(a), BR_D(a), BR_S(b), BR_N(b), BR_D(b))
+RSub(a, b) == BR_AddG(BR_S(a), BR_N(a), BR_D(a), -BR_S(b), BR_N(b), BR_D(b))
+RMul(a, b) == BR_Mk(BR_S(a) * BR_S(b), BR_NMul(BR_N(a), BR_N(b)), BR_NMul(BR_D(a), BR_D(b)))
+RDiv(a, b) == BR_Mk(BR_S(a) * BR_S(b), BR_NMul(BR_N(a), BR_D(b)), BR_NMul(BR_D(a), BR_N(b)))
+RNeg(a) == BR_Mk(-BR_S(a), BR_N(a), BR_D(a))
+RAbs(a) == BR_Mk(1, BR_N(a), BR_D(a))
+RLeq(a, b) == BR_Cmp(a, b) <= 0
+RLt(a, b) == BR_Cmp(a, b) < 0
+REq(a, b) == BR_Cmp(a, b) = 0
+RSign(a) == BR_S(a)
+RFloor(a) == LET f == BR_FloorSN(a) IN IF f[1] = 0 THEN BR_Zero ELSE <<f[1], f[2], <<1>> >>
+
+\* nearest multiple of 2^-bits, ties towards +infinity: floor(a*2^bits + 1/2) / 2^bits
+RRound(a, bits) ==
+  IF BR_S(a) = 0 THEN BR_Zero
+  ELSE IF bits >= 0 /\ BR_NIsPow2(BR_D(a)) /\ BR_NTz(BR_D(a)) <= bits THEN BR_Norm(a)
+  ELSE RMul(RFloor(RAdd(RMul(a, RPow2(bits)), BR_Half)), RPow2(-bits))
+
+RMax(a, b) == IF BR_Cmp(a, b) >= 0 THEN BR_Norm(a) ELSE BR_Norm(b)
+RMin(a, b) == IF BR_Cmp(a, b) <= 0 THEN BR_Norm(a) ELSE BR_Norm(b)
+
+\* floor(a) as a TLC integer (must fit)
+RFloorInt(a) == LET f == BR_FloorSN(a) IN f[1] * BR_NToInt(f[2])
+
+\* floor(log2(|a|)) for a # 0
+RLog2Floor(a) ==
+  LET n == BR_N(a)
+      d == BR_D(a)
+      e == BR_NBitLen(n) - BR_NBitLen(d)
+      c == IF e >= 0 THEN BR_NCmp(n, BR_NShl(d, e)) ELSE BR_NCmp(BR_NShl(n, -e), d)
+  IN  IF n = <<>> THEN Assert(FALSE, "BigRat: RLog2Floor of zero")
+      ELSE IF c < 0 THEN e - 1 ELSE e
+
+\* rendering for reports only; the Java override prints about 6 significant digits
 RToStr(a) == "?"
-RDot(u, v) == u
-RMatMul(A, B) == A
-RMatVec(A, v) == v
-RMatAdd(A, B) == A
-RMatSub(A, B) == A
-RMatScale(s, A) == A
-RMatRound(A, bits) == A
-RMatMaxAbs(A) == A
-RVecMaxAbs(v) == v
-RMatNormInf(A) == A
-RMatInv(A) == A
-RMatSolve(A, B) == A
+
+(***************************************************************************)
+(* Kernels: folds over the scalar operators.  Vectors are sequences of     *)
+(* rationals, matrices are sequences of rows.                              *)
+(***************************************************************************)
+RECURSIVE BR_SumR(_, _, _)             \* sum of v[lo..hi]
+BR_SumR(v, lo, hi) ==
+  IF lo > hi THEN BR_Zero
+  ELSE IF lo = hi THEN BR_Norm(v[lo])
+  ELSE LET mid == (lo + hi) \div 2 IN RAdd(BR_SumR(v, lo, mid), BR_SumR(v, mid + 1, hi))
+RECURSIVE BR_MaxR(_, _, _)             \* max(0, max of v[lo..hi])
+BR_MaxR(v, lo, hi) ==
+  IF lo > hi THEN BR_Zero
+  ELSE IF lo = hi THEN RMax(BR_Zero, v[lo])
+  ELSE LET mid == (lo + hi) \div 2 IN RMax(BR_MaxR(v, lo, mid), BR_MaxR(v, mid + 1, hi))
+
+BR_Vec(n, F(_)) == IF n <= 0 THEN <<>> ELSE BR_Force([i \in 1..n |-> F(i)])
+BR_Cols(A) == IF Len(A) = 0 THEN 0 ELSE Len(A[1])
+
+RDot(u, v) ==
+  IF Len(u) # Len(v) THEN Assert(FALSE, "RDot: length mismatch")
+  ELSE LET P(i) == RMul(u[i], v[i]) IN BR_SumR(BR_Vec(Len(u), P), 1, Len(u))
+
+RMatMul(A, B) ==
+  LET m == BR_Cols(B)
+      Row(i) == LET a == A[i]
+                    E(j) == LET C(l) == B[l][j] IN RDot(a, BR_Vec(Len(B), C))
+                IN  IF Len(a) # Len(B) THEN Assert(FALSE, "RMatMul: shape mismatch")
+                    ELSE BR_Vec(m, E)
+  IN  BR_Vec(Len(A), Row)
+
+RMatVec(A, v) == LET E(i) == RDot(A[i], v) IN BR_Vec(Len(A), E)
+
+RMatAdd(A, B) ==
+  LET Row(i) == LET E(j) == RAdd(A[i][j], B[i][j]) IN BR_Vec(Len(A[i]), E)
+  IN  BR_Vec(Len(A), Row)
+RMatSub(A, B) ==
+  LET Row(i) == LET E(j) == RSub(A[i][j], B[i][j]) IN BR_Vec(Len(A[i]), E)
+  IN  BR_Vec(Len(A), Row)
+RMatScale(s, A) ==
+  LET Row(i) == LET E(j) == RMul(A[i][j], s) IN BR_Vec(Len(A[i]), E)
+  IN  BR_Vec(Len(A), Row)
+RMatRound(A, bits) ==
+  LET Row(i) == LET E(j) == RRound(A[i][j], bits) IN BR_Vec(Len(A[i]), E)
+  IN  BR_Vec(Len(A), Row)
+
+RVecMaxAbs(v) == LET E(i) == RAbs(v[i]) IN BR_MaxR(BR_Vec(Len(v), E), 1, Len(v))
+RMatMaxAbs(A) == LET E(i) == RVecMaxAbs(A[i]) IN BR_MaxR(BR_Vec(Len(A), E), 1, Len(A))
+\* max row sum of absolute values
+RMatNormInf(A) ==
+  LET RowSum(i) == LET E(j) == RAbs(A[i][j]) IN BR_SumR(BR_Vec(Len(A[i]), E), 1, Len(A[i]))
+  IN  BR_MaxR(BR_Vec(Len(A), RowSum), 1, Len(A))
+
+\* Gauss-Jordan on the augmented matrix w = [A | I]; first non-zero pivot in column c.
+RECURSIVE BR_Pivot(_, _, _)
+BR_Pivot(w, c, r) ==
+  IF r > Len(w) THEN 0 ELSE IF BR_S(w[r][c]) # 0 THEN r ELSE BR_Pivot(w, c, r + 1)
+
+RECURSIVE BR_GJ(_, _)
+BR_GJ(w, c) ==
+  LET n == Len(w) IN
+  IF c > n THEN w
+  ELSE
+    LET p   == BR_Pivot(w, c, c)
+        Sw(r) == IF r = c THEN w[p] ELSE IF r = p THEN w[c] ELSE w[r]
+        ws  == BR_Vec(n, Sw)
+        piv == ws[c][c]
+        Pc(j) == RDiv(ws[c][j], piv)
+        rc  == BR_Vec(2 * n, Pc)
+        El(r) == IF r = c THEN rc
+                 ELSE IF BR_S(ws[r][c]) = 0 THEN ws[r]
+                 ELSE LET f == ws[r][c]
+                          E(j) == RSub(ws[r][j], RMul(f, rc[j]))
+                      IN  BR_Vec(2 * n, E)
+    IN  IF p = 0 THEN Assert(FALSE, "RMatInv: singular matrix")
+        ELSE BR_GJ(BR_Vec(n, El), c + 1)
+
+RMatInv(A) ==
+  LET n == Len(A)
+      Aug(i) == LET E(j) == IF j <= n THEN BR_Norm(A[i][j])
+                            ELSE IF j - n = i THEN <<1, <<1>>, <<1>> >> ELSE BR_Zero
+                IN  BR_Vec(2 * n, E)
+      w == BR_GJ(BR_Vec(n, Aug), 1)
+      Out(i) == SubSeq(w[i], n + 1, 2 * n)
+  IN  BR_Vec(n, Out)
+
+\* solve A X = B exactly (A square, non-singular; the columns of B are right-hand sides)
+RMatSolve(A, B) == RMatMul(RMatInv(A), B)
 =============================================================================
